@@ -1,5 +1,5 @@
 From Coq Require Import List ZArith Bool Lia.
-From Corro Require Import Lib.Ivl Gen.Consts Model.Chunk Model.Serve Proofs.ChunkProofs.
+From Corro Require Import Lib.Ivl Gen.Consts Gen.NeedSql Model.Chunk Model.Serve Proofs.ChunkProofs.
 Import ListNotations.
 Open Scope Z_scope.
 
@@ -21,7 +21,7 @@ Lemma buffered_msgs_only_full sv v q m :
 Proof.
   unfold buffered_msgs. intros H. apply in_flat_map in H. destruct H as ([[rs re] last] & _ & H).
   destruct q as [[qs qe]|].
-  - destruct (_ || _ || _ || _) in H; [|destruct H].
+  - destruct (need_overlap_pred_src _ _ _ _) in H; [|destruct H].
     apply send_chunks_only_full in H. destruct H as (r & s & e & ->). eauto.
   - apply send_chunks_only_full in H. destruct H as (r & s & e & ->). eauto.
 Qed.
@@ -152,8 +152,7 @@ Theorem buffered_range_within_held sv v q m :
 Proof.
   intros Hwf Hm. unfold buffered_msgs in Hm. apply in_flat_map in Hm as [[[rs re] last] [Hsr Hm]].
   destruct q as [[qs qe]|].
-  - destruct (((qs <=? rs) && (rs <=? qe)) || ((rs <=? qs) && (qe <=? re)) ||
-              ((rs <=? qe) && (qe <=? re)) || ((qs <=? re) && (re <=? qe))); [|destruct Hm].
+  - destruct (need_overlap_pred_src rs re qs qe); [|destruct Hm].
     pose proof (send_chunks_in_range _ _ _ _ _ _ m (Hwf rs re last (Z.max rs qs) (Z.min re qe) Hsr ltac:(lia) ltac:(lia)) Hm) as H.
     destruct m as [v' r s e l|]; [|exact H]. destruct H as [_ [H1 H2]].
     exists rs, re, last. split; [exact Hsr|lia].
@@ -240,4 +239,25 @@ Proof.
   apply in_flat_map. exists v. split.
   - apply -> in_rev. apply filter_In. split; [apply In_zrange; exact Hv|]. rewrite Hl. reflexivity.
   - rewrite Hl. exact Hm.
+Qed.
+
+(* ---------- the Partial path's seq-range SELECT (GENERATED predicate) ---------- *)
+(* for well-formed ranges the statement selects exactly the recorded ranges that share a seq with
+   the requested one (no adjacency, unlike the DELETE of the ingest path) *)
+Theorem need_overlap_select_exact rs re s e :
+  rs <= re -> s <= e ->
+  (need_overlap_pred_src rs re s e = true <-> exists x, rs <= x <= re /\ s <= x <= e).
+Proof.
+  intros H1 H2. unfold need_overlap_pred_src.
+  rewrite !orb_true_iff, !andb_true_iff, !Z.leb_le. split.
+  - intros H. exists (Z.max rs s). lia.
+  - intros [x Hx]. lia.
+Qed.
+
+(* what is answered from a selected range is the part inside BOTH: the clamp max/min is never empty *)
+Theorem need_overlap_clamp_nonempty rs re s e :
+  rs <= re -> s <= e -> need_overlap_pred_src rs re s e = true ->
+  Z.max rs s <= Z.min re e /\ rs <= Z.max rs s /\ Z.min re e <= re /\ s <= Z.max rs s /\ Z.min re e <= e.
+Proof.
+  intros H1 H2 H. apply need_overlap_select_exact in H; [|assumption|assumption]. destruct H as [x Hx]. lia.
 Qed.
